@@ -61,6 +61,17 @@ func (s *stateSt) term() string {
 	return lib.App("mkPS", ps, ss)
 }
 
+func (s *stateSt) String() string {
+	var b strings.Builder
+	for _, p := range s.players {
+		fmt.Fprintf(&b, "player %s id=%s addr=%s:%d server=%q modern=%v; ", p.name, p.id.Undashed(), p.ip, p.port, p.server, p.modern)
+	}
+	for _, v := range s.servers {
+		fmt.Fprintf(&b, "server %s addr=%s:%d; ", v.name, v.ip, v.port)
+	}
+	return b.String()
+}
+
 func protoOf(modern bool) gproto.Protocol {
 	if modern {
 		return version.Minecraft_1_20_2.Protocol
@@ -548,7 +559,7 @@ func main() {
 		}
 		term := lib.App("Check.C26.mk", stName, lib.Str(fw.req.name), oracle, lib.Str(channel), lib.Bytes(q.data), lib.Bool(handled), lib.List(rec.eff))
 		desc := map[string]any{"layer": "dispatch", "sub": q.sub, "channel": channel, "data_hex": hex.EncodeToString(q.data), "requester": fw.req.name,
-			"requester_server": fw.req.server, "players": fmt.Sprint(st.players), "servers": fmt.Sprint(st.servers), "handled": handled,
+			"requester_server": fw.req.server, "state": st.String(), "handled": handled,
 			"effects": rec.n, "panic": panicked}
 		tags := append([]string{"layer=dispatch", "sub=" + q.sub}, q.tags...)
 		for k := range rec.n {
@@ -572,7 +583,7 @@ func main() {
 		}
 		term := lib.App("Check.C26.mkA", stName, lib.Str(st.players[req].name), lib.Str(target), lib.Bytes(pb.Bytes()), obs)
 		desc := map[string]any{"layer": "adapter", "target": target, "payload_hex": hex.EncodeToString(pb.Bytes()), "requester": st.players[req].name,
-			"requester_server": st.players[req].server, "players": fmt.Sprint(st.players), "servers": fmt.Sprint(st.servers),
+			"requester_server": st.players[req].server, "state": st.String(),
 			"client_writes": nc, "backend_writes": nb}
 		out.Add(term, desc, nc+nb > 0, "layer=adapter", fmt.Sprintf("client_writes=%d", nc), fmt.Sprintf("backend_writes=%d", nb))
 	}
